@@ -1317,11 +1317,20 @@ where
     }
     // 1. no two vertices of the result within tolerance
     let pairs: Vec<(Uuid, Uuid)> = tr.close.iter().cloned().collect();
-    if let Some((a, b)) = pairs.first() {
+    // Root cause class: the initial simplex is built from the first D+1 ordered vertices without the
+    // tolerance check (recorded finding); its vertices own the D+1 smallest slot indices of a freshly
+    // built Tds. A close pair with a member inserted later went through the per-insertion duplicate
+    // check and is a different defect, so such a pair is reported in preference to an initial one.
+    let mut idx: Vec<(u32, Uuid)> = m.verts.iter().map(|v| ((slotmap::Key::data(&v.key).as_ffi() & 0xffff_ffff) as u32, v.uuid)).collect();
+    idx.sort();
+    let initial: HashSet<Uuid> = idx.iter().take(D + 1).map(|x| x.1).collect();
+    let later = pairs.iter().find(|(a, b)| !(initial.contains(a) && initial.contains(b)));
+    if let Some((a, b)) = later.or(pairs.first()) {
+        let class = if later.is_some() { "later-insertion" } else { "initial-simplex" };
         let (va, vb) = (m.verts.iter().find(|v| v.uuid == *a).unwrap(), m.verts.iter().find(|v| v.uuid == *b).unwrap());
         let d = dist2(&va.p, &vb.p).approx().sqrt();
-        let w = json!({"pair": [{"uuid": a.to_string(), "p": va.p.to_vec(), "bits": bits(&va.p)}, {"uuid": b.to_string(), "p": vb.p.to_vec(), "bits": bits(&vb.p)}], "distance": d, "n_close_pairs": pairs.len()});
-        tr.report(out, format!("batch/close-pair-in-result/shift-{}", if shift == 0.0 { "none" } else if shift < 1e5 { "1024" } else { "2^20" }), format!("batch construction (DedupPolicy::Off) returned Ok with two vertices {:e} apart (<= 0.999e-10): {:?} and {:?}", d, va.p, vb.p), w);
+        let w = json!({"pair": [{"uuid": a.to_string(), "p": va.p.to_vec(), "bits": bits(&va.p)}, {"uuid": b.to_string(), "p": vb.p.to_vec(), "bits": bits(&vb.p)}], "distance": d, "n_close_pairs": pairs.len(), "class": class});
+        tr.report(out, format!("batch/close-pair-in-result/{}/shift-{}", class, if shift == 0.0 { "none" } else if shift < 1e5 { "1024" } else { "2^20" }), format!("batch construction (DedupPolicy::Off) returned Ok with two vertices {:e} apart (<= 0.999e-10): {:?} and {:?}", d, va.p, vb.p), w);
     } else {
         out.count("batch/no_close_pair_in_result");
     }
